@@ -222,7 +222,8 @@ pub fn gen_c02(out: &mut impl Write, seed: u64, thorough: bool) {
             // lengths on both sides of the 128 / 256 byte marks, so that every byte of a length prefix matters
             let mlen = [0usize, 1, 16, 33, 64, 100, 128, 200][ti % 8];
             let msg = r.pattern(mlen);
-            let footer = if ti % 3 == 0 { vec![] } else if ti % 4 == 3 { r.bytes_in(128, 300) } else { r.bytes_in(1, 24) };
+            // footers: empty, short, and long ones on both sides of the 128 / 256 byte marks (fixed lengths: coverage must not depend on the seed)
+            let footer = match ti % 8 { 0 | 6 => vec![], 3 => r.bytes(260), 7 => r.bytes(300), 5 => r.bytes(129), _ => r.bytes_in(1, 24) };
             let aad = if be.has_aad() && ti % 2 == 1 { if ti % 8 == 5 { r.bytes_in(128, 260) } else { r.bytes_in(1, 24) } } else { vec![] };
             let nonce = r.bytes(nl);
             let Some(tok) = seal_local(be, &key, &nonce, &msg, &footer, &aad) else { continue };
@@ -260,6 +261,23 @@ pub fn gen_c02(out: &mut impl Write, seed: u64, thorough: bool) {
                     if !dense && (byte * 8 + bit) % 11 != ti % 11 { continue; }
                     let mut p = s.payload.clone();
                     p[byte] ^= 1 << bit;
+                    emit_open(out, be, &key, &s.tok(&p, &footer), &aad, "err");
+                }
+            }
+            // two-bit corruptions inside the tag and across nonce / ciphertext / tag (a tag comparison that folds differences
+            // with XOR or compares a checksum accepts exactly these)
+            if plen >= nl + tl {
+                let t0 = plen - tl;
+                let mut pairs: Vec<(usize, usize, u8)> = vec![(t0, t0 + 1, 0), (t0, plen - 1, 7), (plen - 2, plen - 1, 3), (0, plen - 1, 0), (nl.saturating_sub(1), t0, 0)];
+                for _ in 0..12 {
+                    let a = t0 + r.below(tl as u64) as usize; let b = t0 + r.below(tl as u64) as usize;
+                    if a != b { pairs.push((a, b, r.below(8) as u8)); }
+                }
+                for (a, b, bit) in pairs {
+                    if a == b || a >= plen || b >= plen { continue; }
+                    let mut p = s.payload.clone();
+                    p[a] ^= 1 << bit;
+                    p[b] ^= 1 << bit;
                     emit_open(out, be, &key, &s.tok(&p, &footer), &aad, "err");
                 }
             }
